@@ -120,6 +120,10 @@ pub fn forge(s: &BSpec) -> Result<BForged, String> {
                     2 => pk.truncate(20),
                     3 => sig.truncate(40),
                     4 => tag = 2 - tag,
+                    5 => sig.push(0x00),
+                    6 => sig.extend([0x5a; 64]),
+                    7 => pk.extend([0x00; 3]),
+                    8 => sig.clear(),
                     _ => {}
                 }
             }
